@@ -2,17 +2,23 @@
 """Generator for /verif/kani/eval_matrix.rs (property C16, operator typing matrix).
 
 Writes Kani contract harnesses for eval::apply_binary_operation covering the full matrix
-15 operators x 8 lhs kinds x 8 rhs kinds = 960 cells, ONE HARNESS PER CELL, named
-c16_<op>_<lhskind>_<rhskind>.  Value kinds are concrete per cell, scalar payloads are symbolic
-(kani::any()), containers are empty, nothing is dropped (mem::forget).
+15 operators x 8 lhs kinds x 8 rhs kinds = 960 cells.  A harness runs the 4 rhs cells of one
+(operator, lhs kind, rhs group) in sequence; there are 15 x 8 x 2 = 240 harnesses named
+    c16_<op>_<lhs kind>_x_scalar    rhs kinds null bool int string
+    c16_<op>_<lhs kind>_x_heap      rhs kinds list object func builtin
+Value kinds are concrete per cell, scalar payloads are symbolic (kani::any()), containers are
+empty, nothing is dropped (mem::forget).  Each cell is one macro invocation line inside its
+harness, so the source line of a failed clause identifies the cell.
 
-Why one cell per harness (measured, Kani 0.68 / CBMC 6.11, this crate): a cell costs ~3 s (in
-domain) / ~6 s (out of domain) of symbolic execution -- every move of the ~150-variant `Error`
-enum is ~1900 SSA steps -- plus ~8 s fixed cost per harness (goto-cc, goto-instrument, CBMC
-start-up).  Putting cells in sequence in one harness is super-linear (1 cell 6 s, 2 cells 13-15 s,
-4 cells 31-40 s, 8 cells 85-120 s of symex), so the CPU time per cell is the same (~14 s) for
-1, 2 or 4 cells per harness and worse for 8; one cell per harness gives the best parallelism and
-pin-points the failing cell.
+Why 4 cells per harness (measured, Kani 0.68 / CBMC 6.11, this crate):
+  * a cell costs ~3 s (in domain) / ~6 s (out of domain) of symbolic execution -- every move of
+    the ~150-variant `Error` enum is ~1900 SSA steps -- and a harness has ~8 s of fixed cost
+    (goto-cc, goto-instrument, CBMC start-up) that is paid in parallel, plus ~0.5 s in the
+    kani-compiler phase that is NOT parallel (960 one-cell harnesses: 8.5 min before the first
+    CBMC starts);
+  * cells in sequence are super-linear in symex: 1 cell 6 s, 2 cells 13-15 s, 4 cells 31-40 s,
+    8 cells 85-120 s.
+  Estimated wall at 16 jobs: 1 cell/harness 23 min, 2: 18 min, 4: 16 min, 8: 20 min.
 
 The output is deterministic (no timestamps, fixed iteration order) so it can be committed; the
 driver re-runs this script before building (GENERATORS in /verif/lib/props_c16.py).
@@ -91,17 +97,20 @@ RESULT_PATTERN = {"int": "Value::Int(_)", "bool": "Value::Bool(_)", "string": "V
                   "list": "Value::List(_)"}
 
 
-def harness_name(optag, lk, rk):
-    return f"c16_{optag}_{lk}_{rk}"
+GROUPS = [("x_scalar", ["null", "bool", "int", "string"]), ("x_heap", ["list", "object", "func", "builtin"])]
 
 
-def cells():
-    """[(optag, op, sym, lk, rk)] in file order."""
-    return [(t, op, sym, lk, rk) for (t, op, sym) in OPS for lk in KINDS for rk in KINDS]
+def harness_name(optag, lk, group):
+    return f"c16_{optag}_{lk}_{group}"
+
+
+def harnesses():
+    """[(optag, op, sym, lk, group, [rhs kinds])] in file order."""
+    return [(t, op, sym, lk, g, rks) for (t, op, sym) in OPS for lk in KINDS for (g, rks) in GROUPS]
 
 
 def harness_names():
-    return [harness_name(t, lk, rk) for (t, _, _, lk, rk) in cells()]
+    return [harness_name(t, lk, g) for (t, _, _, lk, g, _) in harnesses()]
 
 
 def payload_inputs(kind, name):
@@ -115,9 +124,13 @@ def payload_inputs(kind, name):
     return []
 
 
-def inputs_for(lk, rk):
-    """kani::any() call order of a cell harness (for counterexample decoding)."""
-    return [("l", "usize"), ("c", "usize")] + payload_inputs(lk, "a") + payload_inputs(rk, "b")
+def inputs_for(lk, rks):
+    """kani::any() call order of a harness (for counterexample decoding): l, c, then per cell i the
+    lhs payload a<i> and the rhs payload b<i>."""
+    ins = [("l", "usize"), ("c", "usize")]
+    for i, rk in enumerate(rks):
+        ins += payload_inputs(lk, f"a{i}") + payload_inputs(rk, f"b{i}")
+    return ins
 
 
 CONSTRUCT = {
@@ -133,9 +146,10 @@ CONSTRUCT = {
 
 PRELUDE = r'''// GENERATED by /verif/kani/gen_matrix.py -- do not edit by hand; re-run the generator.
 // Property C16: operator typing matrix for eval::apply_binary_operation.
-// 15 operators x 8 lhs kinds x 8 rhs kinds = 960 cells, one harness per cell:
-//   c16_<op>_<lhs kind>_<rhs kind>
-// kinds: null bool int string list object func (user function) builtin (builtin function).
+// 15 operators x 8 lhs kinds x 8 rhs kinds = 960 cells; 240 harnesses of 4 cells each:
+//   c16_<op>_<lhs kind>_x_scalar   rhs kinds null bool int string
+//   c16_<op>_<lhs kind>_x_heap     rhs kinds list object func builtin
+// one macro invocation line per cell.  kinds: null bool int string list object func (user function) builtin (builtin function).
 // Child module of `eval` (injected with #[cfg(kani)] #[path] mod), so private fns are visible.
 #![allow(unused_imports, dead_code, unused_macros, clippy::all)]
 use super::*;
@@ -209,7 +223,8 @@ fn mk_builtin() -> Value {
 }
 
 // ---------------------------------------------------------------------------------------------
-// The contract of one cell.
+// The contract of one cell (one macro invocation = one cell; `l`, `c`, `op`, `loc` come from the
+// enclosing harness).
 //
 // out of the documented domain: the result is Err(AtLoc{source, line, col}) at the operator's
 // location, and `source` is the typing diagnostic naming the same operator and both operand
@@ -217,111 +232,80 @@ fn mk_builtin() -> Value {
 // names are checked in typefn_names.rs); InvalidEqOpTypes carries the rendered names.
 // ---------------------------------------------------------------------------------------------
 macro_rules! cell_rejected {
-    ($name:ident, $op:ident, $lhs:expr, $rhs:expr, $lpat:pat, $rpat:pat, $cover:literal) => {
-        #[kani::proof]
-        #[kani::unwind(2)]
-        #[kani::stub(alloc::fmt::format, fmt_stub)]
-        fn $name() {
-            let l: usize = kani::any();
-            let c: usize = kani::any();
-            let op = BinaryOp::$op;
-            let loc = (l, c);
-            let lhs = $lhs;
-            let rhs = $rhs;
-            let r = apply_binary_operation(&op, &loc, &lhs, &rhs);
-            kani::cover!(matches!(&r, Err(_)), $cover);
-            match &r {
-                Err(Error::AtLoc{source, line, col}) => {
-                    assert!(*line == l && *col == c, "type_error_at_operator_location");
-                    match &**source {
-                        Error::InvalidOpTypes{op: eop, lhs: el, rhs: er} => {
-                            assert!(matches!(eop, BinaryOp::$op), "type_error_names_the_operator");
-                            assert!(matches!(el, $lpat) && matches!(er, $rpat), "type_error_names_operand_types_in_order");
-                        },
-                        _ => assert!(false, "out_of_domain_operands_get_a_type_diagnostic"),
-                    }
-                },
-                _ => assert!(false, "out_of_domain_operands_are_rejected"),
-            }
-            std::mem::forget(r);
-            std::mem::forget(lhs);
-            std::mem::forget(rhs);
+    ($l:ident, $c:ident, $op:ident, $loc:ident, $opv:ident, $lhs:expr, $rhs:expr, $lpat:pat, $rpat:pat, $cover:literal) => {{
+        let lhs = $lhs;
+        let rhs = $rhs;
+        let r = apply_binary_operation(&$op, &$loc, &lhs, &rhs);
+        kani::cover!(matches!(&r, Err(_)), $cover);
+        match &r {
+            Err(Error::AtLoc{source, line, col}) => {
+                assert!(*line == $l && *col == $c, "type_error_at_operator_location");
+                match &**source {
+                    Error::InvalidOpTypes{op: eop, lhs: el, rhs: er} => {
+                        assert!(matches!(eop, BinaryOp::$opv), "type_error_names_the_operator");
+                        assert!(matches!(el, $lpat) && matches!(er, $rpat), "type_error_names_operand_types_in_order");
+                    },
+                    _ => assert!(false, "out_of_domain_operands_get_a_type_diagnostic"),
+                }
+            },
+            _ => assert!(false, "out_of_domain_operands_are_rejected"),
         }
-    };
+        std::mem::forget(r);
+        std::mem::forget(lhs);
+        std::mem::forget(rhs);
+    }};
 }
 
 macro_rules! cell_rejected_eq {
-    ($name:ident, $op:ident, $lhs:expr, $rhs:expr, $lname:ident, $rname:ident, $cover:literal) => {
-        #[kani::proof]
-        #[kani::unwind(2)]
-        #[kani::stub(alloc::fmt::format, fmt_stub)]
-        fn $name() {
-            let l: usize = kani::any();
-            let c: usize = kani::any();
-            let op = BinaryOp::$op;
-            let loc = (l, c);
-            let lhs = $lhs;
-            let rhs = $rhs;
-            let r = apply_binary_operation(&op, &loc, &lhs, &rhs);
-            kani::cover!(matches!(&r, Err(_)), $cover);
-            match &r {
-                Err(Error::AtLoc{source, line, col}) => {
-                    assert!(*line == l && *col == c, "type_error_at_operator_location");
-                    match &**source {
-                        Error::InvalidEqOpTypes{op: eop, lhs_type, rhs_type, ..} => {
-                            assert!(matches!(eop, BinaryOp::$op), "type_error_names_the_operator");
-                            assert!($lname(lhs_type) && $rname(rhs_type), "type_error_names_operand_types_in_order");
-                        },
-                        _ => assert!(false, "out_of_domain_operands_get_a_type_diagnostic"),
-                    }
-                },
-                _ => assert!(false, "out_of_domain_operands_are_rejected"),
-            }
-            std::mem::forget(r);
-            std::mem::forget(lhs);
-            std::mem::forget(rhs);
+    ($l:ident, $c:ident, $op:ident, $loc:ident, $opv:ident, $lhs:expr, $rhs:expr, $lname:ident, $rname:ident, $cover:literal) => {{
+        let lhs = $lhs;
+        let rhs = $rhs;
+        let r = apply_binary_operation(&$op, &$loc, &lhs, &rhs);
+        kani::cover!(matches!(&r, Err(_)), $cover);
+        match &r {
+            Err(Error::AtLoc{source, line, col}) => {
+                assert!(*line == $l && *col == $c, "type_error_at_operator_location");
+                match &**source {
+                    Error::InvalidEqOpTypes{op: eop, lhs_type, rhs_type, ..} => {
+                        assert!(matches!(eop, BinaryOp::$opv), "type_error_names_the_operator");
+                        assert!($lname(lhs_type) && $rname(rhs_type), "type_error_names_operand_types_in_order");
+                    },
+                    _ => assert!(false, "out_of_domain_operands_get_a_type_diagnostic"),
+                }
+            },
+            _ => assert!(false, "out_of_domain_operands_are_rejected"),
         }
-    };
+        std::mem::forget(r);
+        std::mem::forget(lhs);
+        std::mem::forget(rhs);
+    }};
 }
 
 // in the documented domain, non-arithmetic result: Ok(v) with v of the documented kind.
 macro_rules! cell_accepted {
-    ($name:ident, $unwind:literal, $op:ident, $lhs:expr, $rhs:expr, $respat:pat, $cover:literal) => {
-        #[kani::proof]
-        #[kani::unwind($unwind)]
-        #[kani::stub(alloc::fmt::format, fmt_stub)]
-        fn $name() {
-            let l: usize = kani::any();
-            let c: usize = kani::any();
-            let op = BinaryOp::$op;
-            let loc = (l, c);
-            let lhs = $lhs;
-            let rhs = $rhs;
-            let r = apply_binary_operation(&op, &loc, &lhs, &rhs);
-            kani::cover!(matches!(&r, Ok(_)), $cover);
-            match &r {
-                Ok($respat) => {},
-                Ok(_) => assert!(false, "result_kind_is_documented"),
-                Err(_) => assert!(false, "in_domain_operands_are_accepted"),
-            }
-            std::mem::forget(r);
-            std::mem::forget(lhs);
-            std::mem::forget(rhs);
+    ($l:ident, $c:ident, $op:ident, $loc:ident, $opv:ident, $lhs:expr, $rhs:expr, $respat:pat, $cover:literal) => {{
+        let lhs = $lhs;
+        let rhs = $rhs;
+        let r = apply_binary_operation(&$op, &$loc, &lhs, &rhs);
+        kani::cover!(matches!(&r, Ok(_)), $cover);
+        match &r {
+            Ok($respat) => {},
+            Ok(_) => assert!(false, "result_kind_is_documented"),
+            Err(_) => assert!(false, "in_domain_operands_are_accepted"),
         }
-    };
+        std::mem::forget(r);
+        std::mem::forget(lhs);
+        std::mem::forget(rhs);
+    }};
 }
 
 // in the documented domain, integer arithmetic: Ok(Int) or the located IntOverflow diagnostic of
 // C06 (result outside 64 bits / undefined quotient) -- never a typing diagnostic.
-macro_rules! arith_body {
-    ($op:ident, $cover:literal) => {{
-        let l: usize = kani::any();
-        let c: usize = kani::any();
-        let op = BinaryOp::$op;
-        let loc = (l, c);
-        let lhs = Value::Int(kani::any());
-        let rhs = Value::Int(kani::any());
-        let r = apply_binary_operation(&op, &loc, &lhs, &rhs);
+macro_rules! cell_accepted_arith {
+    ($l:ident, $c:ident, $op:ident, $loc:ident, $opv:ident, $lhs:expr, $rhs:expr, $cover:literal) => {{
+        let lhs = $lhs;
+        let rhs = $rhs;
+        let r = apply_binary_operation(&$op, &$loc, &lhs, &rhs);
         kani::cover!(matches!(&r, Ok(_)), $cover);
         match &r {
             Ok(Value::Int(_)) => {},
@@ -354,28 +338,48 @@ def cover_name(optag, lk, rk, dom):
 
 
 def cell(optag, op, lk, rk):
-    name = harness_name(optag, lk, rk)
+    """one source line = one cell"""
     dom = domain(op, lk, rk)
     cov = cover_name(optag, lk, rk, dom)
+    head = f"l, c, op, loc, {op}, {CONSTRUCT[lk]}, {CONSTRUCT[rk]}"
     if dom == "int":
-        stubs = ""
-        if op == "Div":
-            stubs = "#[kani::stub(i64::checked_div, checked_div_stub)]\n"
-        if op == "Mod":
-            stubs = ("#[kani::stub(i64::checked_rem, checked_rem_stub)]\n"
-                     "#[kani::stub(i64::wrapping_rem, wrapping_rem_stub)]\n")
-        return ("#[kani::proof]\n#[kani::unwind(2)]\n#[kani::stub(alloc::fmt::format, fmt_stub)]\n" + stubs +
-                f"fn {name}() {{\n    arith_body!({op}, \"{cov}\")\n}}\n")
+        return f"    cell_accepted_arith!({head}, \"{cov}\");\n"
     if dom:
-        # `[a, b].concat()` in the Sum arm iterates over its two operands: bound 3 covers it
-        unwind = 3 if op == "Sum" else 2
-        return (f"cell_accepted!({name}, {unwind}, {op}, {CONSTRUCT[lk]}, {CONSTRUCT[rk]}, "
-                f"{RESULT_PATTERN[dom]}, \"{cov}\");\n")
+        return f"    cell_accepted!({head}, {RESULT_PATTERN[dom]}, \"{cov}\");\n"
     if op in EQ:
-        return (f"cell_rejected_eq!({name}, {op}, {CONSTRUCT[lk]}, {CONSTRUCT[rk]}, "
-                f"name_is_{TYPE_NAME[lk]}, name_is_{TYPE_NAME[rk]}, \"{cov}\");\n")
-    return (f"cell_rejected!({name}, {op}, {CONSTRUCT[lk]}, {CONSTRUCT[rk]}, "
-            f"{TYPE_PATTERN[lk]}, {TYPE_PATTERN[rk]}, \"{cov}\");\n")
+        return f"    cell_rejected_eq!({head}, name_is_{TYPE_NAME[lk]}, name_is_{TYPE_NAME[rk]}, \"{cov}\");\n"
+    return f"    cell_rejected!({head}, {TYPE_PATTERN[lk]}, {TYPE_PATTERN[rk]}, \"{cov}\");\n"
+
+
+def harness(optag, op, lk, group, rks):
+    doms = [domain(op, lk, rk) for rk in rks]
+    # `[a, b].concat()` in the `+` arm iterates over its two operands: bound 3 covers it
+    unwind = 3 if (op == "Sum" and any(d in ("string", "list") for d in doms)) else 2
+    out = ["#[kani::proof]\n", f"#[kani::unwind({unwind})]\n", "#[kani::stub(alloc::fmt::format, fmt_stub)]\n"]
+    if "int" in doms and op == "Div":
+        out.append("#[kani::stub(i64::checked_div, checked_div_stub)]\n")
+    if "int" in doms and op == "Mod":
+        out.append("#[kani::stub(i64::checked_rem, checked_rem_stub)]\n")
+        out.append("#[kani::stub(i64::wrapping_rem, wrapping_rem_stub)]\n")
+    out.append(f"fn {harness_name(optag, lk, group)}() {{\n")
+    out.append("    let l: usize = kani::any();\n")
+    out.append("    let c: usize = kani::any();\n")
+    out.append(f"    let op = BinaryOp::{op};\n")
+    out.append("    let loc = (l, c);\n")
+    for rk in rks:
+        out.append(cell(optag, op, lk, rk))
+    out.append("}\n")
+    return "".join(out)
+
+
+def cell_line(optag, lk, rk):
+    """1-based line of the cell's macro invocation in the generated file (to map a failed clause's
+    source location back to its cell)."""
+    needle = f"\"{cover_name(optag, lk, rk, domain(dict((t, o) for (t, o, _) in OPS)[optag], lk, rk))}\""
+    for i, line in enumerate(generate().splitlines(), 1):
+        if needle in line:
+            return i
+    return None
 
 
 def generate():
@@ -385,8 +389,8 @@ def generate():
     for (optag, op, sym) in OPS:
         out.append(f"\n// ---------------------------------------------------------------- {op}  `{sym}`\n")
         for lk in KINDS:
-            for rk in KINDS:
-                out.append(cell(optag, op, lk, rk))
+            for (group, rks) in GROUPS:
+                out.append("\n" + harness(optag, op, lk, group, rks))
     return "".join(out)
 
 
